@@ -1,14 +1,14 @@
 SPECIFICATION Spec
 CONSTANTS
-  Mode = "matrix"
-  ProtoSets <- QProtoSets
-  CodecSeqs <- QCodecSeqs
-  CompSeqs <- QCompSeqs
+  Mode = "hostile"
+  ProtoSets <- SingleProtoSets
+  CodecSeqs <- OneCodecSeqs
+  CompSeqs <- GzCompSeqs
   ClientForms <- QForms
   ClientCodecs <- QCodecs
-  ClientComps <- QComps
-  Methods <- QMethods
-  MaxMsgs = 2
+  ClientComps <- NoComps
+  Methods <- EMethods
+  MaxMsgs = 1
   EndCodes <- OkOnly
   HttpStatuses <- NoStatuses
   FlagValues <- QFlags
